@@ -188,11 +188,9 @@ class Polynomial(Contract):
         if not ok:
             return
         fa = r.from_attrs
-        if kind == "structured":
-            # (this branch takes the dtype of the fields; the `dtype` argument is not consulted by the source)
-            ex.oblige("post.dtype_left_to_the_fields", z3.BoolVal(fa["dtype"] is None), "post")
-        else:
-            ex.oblige("post.dtype_forwarded", (fa["dtype"].term == ex.dt) if isinstance(fa["dtype"], DTypeV) else z3.BoolVal(False), "post")
+        # C12: a requested dtype reaches the constructor for EVERY kind of input (an earlier version of this clause had been written
+        # from the code, which ignored the request for a raw structured array - repaired in /repo, abfa666)
+        ex.oblige("post.dtype_forwarded", (fa["dtype"].term == ex.dt) if isinstance(fa["dtype"], DTypeV) else z3.BoolVal(False), "post")
         ex.oblige("post.retain_flags_left_to_the_options", z3.BoolVal(fa["rc"] is None and fa["rn"] is None), "post")
         ex.oblige("post.allocation_forwarded", z3.BoolVal(fa.get("allocation") is ex.alloc), "post")
         nm = fa["names"]
